@@ -34,7 +34,7 @@ def check(run, repo, tier):
   # helper keep their place
   import os
   _HERE = os.path.dirname(os.path.abspath(__file__))
-  decide(run, repo, [r1_fenced, r2_line_model, r3_translation, r4_compile_acceptor, r5_stub, r6_multiline_hint, r7_inference_scope],
+  decide(run, repo, [r1_fenced, r2_line_model, r3_translation, r4_compile_acceptor, r5_stub, r6_multiline_hint, r7_inference_scope, r8_dollar_anchor],
          anchors_of(os.path.join(_HERE, "c19.py"), os.path.join(_HERE, "_h_E.py"), os.path.join(_HERE, "../events.py")))
 
 
@@ -794,6 +794,28 @@ def r6_multiline_hint(run, w):
            fi=fn.fi, node=st.stmt)
 
 
+def r8_dollar_anchor(run, w):
+  R8 = run.rule("C19-R8", "the `$` -> `rec.` translation of a formula patches only the `$` found "
+                "AT the mapped-back position of a DOLLAR-prefixed Name: the match that bounds the "
+                "patch is anchored there, so a genuine DOLLAR... identifier never makes a later "
+                "`$x` in a string or comment (or an already translated one) be rewritten", floor=1)
+  from .c40 import anchored_dollar_patches
+  mod = w.repo.module("codebuilder")
+  cands = [fi for fi in mod.functions.values()
+           if any(isinstance(c.func, ast.Attribute) and c.func.attr == "make_regexp_patches" and
+                  any(isinstance(a, ast.Constant) and a.value == "DOLLAR" for a in c.args)
+                  for c in calls_in(fi.node)) and
+           any(isinstance(x, ast.Return) for x in walk_no_nested(fi.node)) and
+           any((dotted(c.func) or "").endswith("make_patch") for c in calls_in(fi.node))]
+  if not cands:
+    raise AnalysisError("codebuilder: the function that translates `$x` through DOLLARx tokens "
+                        "not identified in the code as it is now written: cannot decide")
+  n = 0
+  for fi in cands:
+    n += anchored_dollar_patches(run, R8, fi)
+  return n
+
+
 def r7_inference_scope(run, w):
   R7 = run.rule("C19-R7", "process-wide astroid transforms registered around a parse are removed "
                 "again even when the formula does not parse", floor=1)
@@ -854,6 +876,9 @@ def r7_inference_scope(run, w):
 
 C = "sandbox/grist/codebuilder.py"
 VARIANTS = [
+  ("formula-dollar-searches-forward", C, """      m = DOLLAR_REGEX.match(formula, input_pos)
+      # If there is no match""", """      m = DOLLAR_REGEX.search(formula, input_pos)
+      # If there is no match""", "C19-R8"),
   ("no-newline-normalisation", C, "  formula_builder_text = _normalize_newlines(formula_builder_text)\n", "", "C19-R2"),
   ("normalise-after-dedent", C, """  formula_builder_text = _normalize_newlines(formula_builder_text)
 
